@@ -95,6 +95,8 @@ def show(t, names: bool = True) -> str:
                 parts.append(show(e[2], names) + g)
             elif e[0] == "many":
                 parts.append("*" + show(e[2], names) + g)
+            elif e[0] == "reorder":
+                parts.append("<" + show(e[2], names) + ">" + g)
             else:
                 parts.append(f"{show(e[2], names)}: {show(e[3], names)}" + g)
         return f"{t[1]}<{'; '.join(parts)}>"
